@@ -7,7 +7,7 @@ class Driver(ChanDriver):
     PID = 'C13'
     PROP = 'c13_ok'
     PROFILES = [('confirm', 150, 2000)]
-    CONC = [('confirm', concdrv.gen_rpc, 'conc_own_reply_ok', 40, 600)]
+    CONC = [('confirm', concdrv.gen_rpc, 'conc_own_reply_ok', 100, 1000)]
     RULE = ("scenarios from the profiles ['confirm'] of harness/changen.py: sequences of "
             'application operations on 1-3 channels, each with a script of '
             'inbound frame batches (replies, deliveries, returns, cancels, '
